@@ -81,8 +81,8 @@ def run_async(h: Harness, script: List[tuple], ch: Choices, *, horizon: float = 
                         tied = [x for x in tied if any(x is y for y in live)]
             loop.run_until_idle(max_iters)
             steps += 1
-            if steps > 500:
-                raise RuntimeError("timeline horizon: more than 500 timer rounds")
+            if steps > 3000:
+                raise RuntimeError("timeline horizon: more than 3000 timer rounds")
         if loop.time() < horizon:
             loop._vnow = horizon
     return d
@@ -133,6 +133,18 @@ def run_sync(h: Harness, script: List[tuple], ch: Choices, *, horizon: float = 2
             if n > 2000:
                 raise RuntimeError("thread horizon exceeded")
 
+    def sync_sleep(dur: float) -> None:
+        """A blocking action on the caller's thread: virtual time passes and the
+        library's threads that become due run meanwhile (their sends are queued
+        behind the event being processed)."""
+        limit = sched.now + dur
+        fire_until(limit, inclusive=True)
+        if sched.now < limit:
+            sched.now = limit
+        sched.touch()
+
+    h.sync_sleep = sync_sleep  # type: ignore[attr-defined]
+
     for item in script:
         t, op = item[0], item[1]
         payload = item[2] if len(item) > 2 else {}
@@ -157,6 +169,7 @@ def run_sync(h: Harness, script: List[tuple], ch: Choices, *, horizon: float = 2
             op(d)
         else:
             d.send(op, **payload)
+        sched.touch()
     fire_until(horizon, inclusive=True)
     if sched.now < horizon:
         sched.now = horizon
